@@ -70,6 +70,7 @@ type Contract struct {
 	Guard        *Clause
 	ExitHints    []Clause
 	IsLemma      bool
+	IsMonitor    bool
 	LemmaPTypes  []ast.Expr
 	IndVar       string
 	IndFrom      ast.Expr
@@ -126,8 +127,10 @@ type Engine struct {
 	addrTaken map[*types.Var]bool   // struct fields whose address is taken (&p.f)
 	Guarded   map[string]string     // "pkg.Type.field" -> name of the mutex field protecting it
 	GuardedProps map[string][]string
+	Monitors  map[string]*Contract // "pkg.Type.mutexfield" -> invariant (Requires) and rely/guarantee (Ensures)
 	modCache  map[*types.Func]map[string]bool
 	Warnings  []string
+	liveFns   map[string]bool // spec functions that (transitively) use live()
 }
 
 func recvTypeName(t types.Type) (string, bool) {
@@ -317,7 +320,7 @@ var clauseKeywords = map[string]bool{
 	"func": true, "spec": true, "axiom": true, "instantiate": true, "nosafety": true,
 	"onlysafety": true, "unfold": true, "assert": true, "cases": true, "partial": true,
 	"lemma": true, "induction": true, "uses": true, "hint": true, "reads": true, "guard": true,
-	"guarded": true, "unshared": true, "fnparam": true,
+	"guarded": true, "unshared": true, "fnparam": true, "monitor": true,
 }
 
 var fnparamRe = regexp.MustCompile(`^([A-Za-z_][A-Za-z0-9_]*)\(([^)]*)\)\s*:\s*(.*)$`)
@@ -419,6 +422,26 @@ func (e *Engine) parseContracts(body, pkgPath, file string, line0 int) error {
 				}
 			}
 			e.Contracts[c.Key] = c
+			cur, curLoop = c, nil
+		case "monitor":
+			// monitor T.m(self): the mutex field m of struct T is a monitor for the fields declared
+			// `guarded T.f by m`.  Its `requires` clauses are the monitor invariant over `self`
+			// (assumed when the lock is acquired, proved when the write lock is released); its
+			// `ensures` clauses are the rely/guarantee relation between old(...) = the state at
+			// an earlier moment and the current state: what other threads may have done while the
+			// lock was not held (assumed at acquisition) and what this thread may do while it
+			// holds the write lock (proved at release).
+			hd := strings.TrimSpace(rc.text)
+			op := strings.Index(hd, "(")
+			if op < 0 || !strings.HasSuffix(hd, ")") || !strings.Contains(hd[:op], ".") {
+				return fmt.Errorf("%s:%d: monitor T.m(self)", file, rc.line)
+			}
+			c := &Contract{Key: "monitor:" + pkgPath + "." + hd[:op], PkgPath: pkgPath, IsMonitor: true, File: file, Line: rc.line,
+				Loops: map[int]*LoopSpec{}, Asserts: map[string][]Clause{}, ParamNames: []string{strings.TrimSpace(hd[op+1 : len(hd)-1])}}
+			if e.Monitors == nil {
+				e.Monitors = map[string]*Contract{}
+			}
+			e.Monitors[pkgPath+"."+hd[:op]] = c
 			cur, curLoop = c, nil
 		case "guarded":
 			// guarded T.f by m: field f of struct T is protected by the mutex field m of the same object
